@@ -173,7 +173,7 @@ _MSG_KINDS = ["even_port", "data3", "channel_number", "xor_mapped_v4", "data5"] 
 
 def _msg_rt(k, tier="quick"):
     return H("stunrs", MSG + "c01_msg_" + k, tier=tier, timeout=1500, mem_gb=10, covers=None, stubs=[NOFMT, TID, REG],
-             bounds="one-attribute message (%s): method 0..0xFFF, class, transaction id and attribute value symbolic; 48-byte buffer; padding bytes re-written with arbitrary values before decoding" % k,
+             bounds="one-attribute message (%s): one concrete (method, class) per instance, transaction id and attribute value symbolic; 48-byte buffer; padding bytes re-written with arbitrary values before decoding" % k,
              funcs=["MessageEncoder::encode", "MessageDecoder::decode", "RawMessage::decode", "RawAttributesIter::next", "context::ignore_attribute"])
 
 
@@ -282,6 +282,8 @@ _G_SEND = [
     _g("glue_send_k1_ind", bounds="1 live, limit 1, indication", covers=0),
     _g("glue_send_k2_req_full", tier="thorough", timeout=2400, mem=16, bounds="2 live, limit 2 (full), request", covers=0),
     _g("glue_send_k1_lt_ind", tier="thorough", bounds="1 live, long-term mechanism model, indication (refused)", covers=0),
+    _g("glue_send_k1_req_full_overdue", bounds="1 live whose deadline has passed without a timer call, limit 1 (full), request", covers=1),
+    _g("glue_send_k1_req_overdue", tier="thorough", bounds="1 live whose deadline has passed without a timer call, limit 2, request", covers=1),
 ]
 _G_RECV = [
     _g("glue_recv_k0", bounds="0 live; decode Err | any class, unknown id; all verdicts", covers=0),
@@ -581,3 +583,10 @@ PROPS["C03"] = PROPS["C03"] + [_pa_walk(16, "thorough"), _pa_walk(24, "thorough"
 
 # whole-decode queries that also decide sentences of C09 ("attributes that are not admitted are neither returned nor validated")
 PROPS["C09"] = PROPS["C09"] + [h for h in _C18V if h.name.endswith(("c18v_validate_fp_fp", "c18v_validate_fp_prio"))]
+
+# message-level round trips through the real MessageEncoder / MessageDecoder (cheap since the message type is concrete)
+PROPS["C01"] = PROPS["C01"] + [_msg_rt(k, "thorough") for k in _MSG_KINDS + ["unknown_attributes"]]
+
+# send_request while the head deadline is overdue (late controller): C12 refusal is silent and exact, C05/C11 bookkeeping unchanged
+PROPS["C11"] = PROPS["C11"] + [_G_SEND[11]]
+PROPS["C05"] = PROPS["C05"] + [_G_SEND[10]]
